@@ -120,6 +120,21 @@ Section Codec.
       unpack digest H digest_eqb dec gunz umask preserve d blob = Err XDigest.
   Proof. exact (wrong_blob_rejected digest H digest_eqb dec gunz digest_eqb_spec). Qed.
 
+  (* a plain file: Add -> Push writes exactly the bytes (mode 0666 minus umask: a blob
+     descriptor carries no mode); whatever Push accepts has the descriptor's digest and size *)
+  Theorem C12_file_roundtrip :
+    forall umask nm content,
+      push_file digest H digest_eqb umask (file_descriptor digest H nm content) content
+      = Ok (NFile content (N.ldiff 438 umask)).
+  Proof. exact (file_roundtrip digest H digest_eqb digest_eqb_spec). Qed.
+
+  Theorem C12_file_push_verified :
+    forall umask d blob n,
+      push_file digest H digest_eqb umask d blob = Ok n ->
+      H blob = d_digest digest d /\ N.of_nat (length blob) = d_size digest d /\
+      exists m, n = NFile blob m.
+  Proof. exact (file_push_verified digest H digest_eqb digest_eqb_spec). Qed.
+
   (* reproducible tars: equal up to timestamps => equal descriptor *)
   Theorem C12_reproducible :
     forall pre t1 t2,
@@ -136,6 +151,8 @@ Print Assumptions C12_unpack_roundtrip_partial.
 Print Assumptions C12_wrong_checksum_rejected.
 Print Assumptions C12_wrong_blob_rejected.
 Print Assumptions C12_reproducible.
+Print Assumptions C12_file_roundtrip.
+Print Assumptions C12_file_push_verified.
 
 (* The three annotations Add writes do not clobber each other (keys regenerated from
    content/file/file.go) and make Store.push unpack unless SkipUnpack. *)
